@@ -515,7 +515,7 @@ static void run_c08() {
           if (rv.index % 5 != 0 && rv.index != wv.index) continue;  // reader versions: own version + every 5th of the shard
           Sch rs = version_sch(rv);
           DecResult ref = refdec_bytes(rs, m.bytes.data(), m.bytes.size());
-          for (int rig : {R_PED, R_STR, R_BPED}) {
+          for (int rig : {R_PED, R_BUF, R_STR, R_BPED}) {
             if (rig == R_STR && m.max_declared > (1u << 20)) continue;
             std::string cid = "C08|w" + std::to_string(wv.index) + "|r" + std::to_string(rv.index) + "|a" + astr(a) + "|" + m.id() + "|" + kRig[rig];
             if (!R.only.empty() && R.only != cid) continue;
@@ -593,7 +593,7 @@ static void run_c08() {
         if (!rv.read || !rv.ctx_capable || skip_r(rv)) continue;
         Sch rs = outer_sch(rv);
         DecResult ref = refdec_bytes(rs, m.bytes.data(), m.bytes.size());
-        for (int rig : {R_PED, R_STR, R_BPED}) {
+        for (int rig : {R_PED, R_BUF, R_STR, R_BPED}) {
           if (rig == R_STR && m.max_declared > (1u << 20)) continue;
           std::string cid = "C08|nested|w" + std::to_string(wv.index) + "|r" + std::to_string(rv.index) + "|" + m.id() + "|" + kRig[rig];
           if (!R.only.empty() && R.only != cid) continue;
